@@ -66,7 +66,7 @@ func genC16Plan(r *sim.Rng, tier string) RelayPlan {
 	if r.Bool(0.06) {
 		// the RTSP variant of the idle-input clause
 		q := RelayPlan{Sched: pl.Sched, Conf: LalConf{RtmpGop: 1, RtspEnable: true, ApiEnable: true, NoHook: true, HlsEnable: r.Bool(0.5), HlsFragMs: 1000, HlsFragNum: 3, HlsCleanup: r.Intn(3)}}
-		q.RtspIdle = &RtspIdlePlan{Tcp: r.Bool(0.5), ActiveMs: []int{3000, 60000, 125000, 130000, 200000, 250000}[r.Intn(6)], WithAudio: r.Bool(0.5), Cons: r.Intn(3)}
+		q.RtspIdle = &RtspIdlePlan{Tcp: r.Bool(0.5), ActiveMs: []int{3000, 60000, 125000, 130000, 200000, 250000}[r.Intn(6)], WithAudio: r.Bool(0.5), Cons: r.Intn(3), Push: r.Bool(0.5), Leaves: r.Bool(0.4)}
 		return q
 	}
 	pl.Conf.TsEnable = r.Bool(0.8)
@@ -119,6 +119,15 @@ func genC16Plan(r *sim.Rng, tier string) RelayPlan {
 // socket read timeout of its own (RTSP publishers; RTMP publishers are also cut by their 120 s read timeout).
 func runC16RtspIdle(k *sim.Kernel, pl RelayPlan) {
 	ip := pl.RtspIdle
+	var pushes []*actors.RtmpServerStub
+	if ip.Push {
+		pl.Conf.PushAddrs = []string{"10.8.8.1:1935"}
+		k.RegisterStub("10.8.8.1:1935", func(c *sim.Conn) (sim.ConnHandler, time.Duration) {
+			st := actors.NewRtmpServerStub(k, fmt.Sprintf("pushtarget%d", len(pushes)), c)
+			pushes = append(pushes, st)
+			return st, 0
+		})
+	}
 	w := StartWorld(k, pl.Conf)
 	cp := C07Plan{Video: "avc", AacSrIdx: 4, SdpParams: true, MaxPayload: 1200, Transport: "udp"}
 	if ip.WithAudio {
@@ -163,11 +172,32 @@ func runC16RtspIdle(k *sim.Kernel, pl RelayPlan) {
 		k.Violate("C16.active-input-disconnected", "the RTSP publisher was disconnected while it was still sending (after %d ms)", k.NowMs())
 	}
 	silentAt := k.NowMs()
-	// two liveness sweeps (120 s apart) after the last packet at the latest
-	k.Advance(250 * time.Second)
+	if ip.Leaves {
+		pub.Leave(false)
+		k.Settle()
+		k.Advance(2 * time.Second)
+	} else {
+		// two liveness sweeps (120 s apart) after the last packet at the latest
+		k.Advance(250 * time.Second)
+	}
 	k.Settle()
-	if !pub.Closed {
+	if !pub.Closed && !ip.Leaves {
 		k.Violate("C16.idle-not-disconnected", "the RTSP publisher (%s) sent for %d ms, fell silent at %d ms and is still connected %d ms later", map[bool]string{true: "interleaved TCP", false: "UDP"}[ip.Tcp], ip.ActiveMs, silentAt, k.NowMs()-silentAt)
+	}
+	if ip.Push {
+		started := 0
+		for _, st := range pushes {
+			if st.Started {
+				started++
+				if !st.Closed {
+					k.Violate("C16.push-not-closed", "the RTSP publisher is gone (%s) but the relay-push session to %s is still open", map[bool]string{true: "it left", false: "disconnected by the idle check"}[ip.Leaves], "10.8.8.1:1935")
+				}
+			}
+		}
+		if started == 0 {
+			k.Violate("C16.push-missing", "an RTSP publisher was accepted and sent for %d ms but no relay-push session reached the configured target", ip.ActiveMs)
+		}
+		k.Probe("c16_rtsp_push_end_checked")
 	}
 	for _, c := range subs {
 		c.Leave(false)
